@@ -1537,6 +1537,9 @@ func buildFromStringProto(src protoreflect.FieldDescriptor, ext protoFieldExtens
 			}
 
 		case "natural_key":
+			if keyField.Format != nil {
+				break // the explicit (j5.ext.v1.field).key annotation wins
+			}
 			keyField.Format = &schema_j5pb.KeyFormat{
 				Type: &schema_j5pb.KeyFormat_Informal_{
 					Informal: &schema_j5pb.KeyFormat_Informal{},
